@@ -5,9 +5,13 @@
    empty datastore; C01 histories are crash-free ([crash_free h]: boots and production steps only).
    All theorems are for ALL configurations with initial height >= 1 whose signer is the genesis proposer
    ([wf_cfg]), ALL sequences of sequencer responses (SErr | SNil | SBatch txs ts cursor, any txs, any
-   timestamps) and ALL execution outcomes (EOk root | EErr, InitChain Some/None), of any length. *)
+   timestamps) and ALL execution outcomes (EOk root | EErr, InitChain Some/None), of any length.
+   (5)-(8) are about the node under its OWN production loop (Model/ProducerLoop.v: block/aggregation.go, normal and
+   lazy mode): [lrun c h] = the machine state after the history [h] of starts and ROUNDS of the loop, in which a
+   round that hands an error back to the loop halts the node. *)
 From Coq Require Import String NArith ZArith List Bool.
 From Verif Require Import Base.KV Base.Keys Model.Types Model.Producer Proofs.ProducerProofs Proofs.ProducerRestartProofs.
+From Verif Require Import Model.ProducerLoop Proofs.ProducerLoopProofs.
 Import ListNotations.
 Open Scope N_scope.
 
@@ -237,3 +241,156 @@ Theorem C01_translated_boot_refines_model_full : forall (c : cfg) (m : img) (ic 
             GoLiteBootRefine.saved_heights o = GoLiteBootRefine.model_block_heights (boot c m true ic).
 Proof. exact GoLiteBootRefine.translated_boot_refines_model. Qed.
 Print Assumptions C01_translated_boot_refines_model_full.
+
+(* ================================================================================================ *)
+(* The node under its own production loop (normal and lazy mode) — Model/ProducerLoop.v             *)
+(* ================================================================================================ *)
+(* A history is a list of starts (NewManager, then AggregationLoop is started) and ROUNDS of the running loop, each
+   with the responses of the sequencing and execution layer for it; the loop does with the result of a round what
+   block/aggregation.go does: a round that returns an error while the node's context is live ends the loop, the
+   error is reported and the node halts — the rounds up to the next start find no process.  WHEN rounds happen
+   (timers, notifications: the difference between normal and lazy mode) is C17's subject; every theorem here holds
+   for every sequence of rounds, hence for both modes. *)
+
+(* (5) FULL.  Safety under the loop: after EVERY such history — whatever was answered, however often the node
+   halted and was started again — the committed chain is valid in the sense of (1), height by height as in (1'),
+   and what the node serves is as in (3). *)
+Theorem C01_loop_chain_valid_full : forall (c : cfg) (h : list act),
+  wf_cfg c -> ChainValid c (lrun c h).
+Proof. exact loop_chain_valid. Qed.
+Print Assumptions C01_loop_chain_valid_full.
+
+Theorem C01_loop_blocks_valid_full : forall (c : cfg) (h : list act),
+  wf_cfg c ->
+  let st := lrun c h in let m := img_of st in
+  forall k, c_initial c <= k -> k <= g_height m ->
+  exists r0 s, In r0 (g_inits st) /\ g_state m = Some s /\ s_height s = g_height m /\
+               block_facts c (g_block m) (g_built st) (g_execs st) r0 (g_height m) s k.
+Proof. exact loop_blocks_valid. Qed.
+Print Assumptions C01_loop_blocks_valid_full.
+
+Theorem C01_loop_served_full : forall (c : cfg) (h : list act),
+  wf_cfg c ->
+  let st := lrun c h in let H := g_height (img_of st) in
+  (forall n, c_initial c <= n -> n <= H ->
+     exists b, served st n = Some b /\ h_height (hdr_of b) = n /\ served_signed c b) /\
+  (forall v b, vol_of st = Some v -> served st (H + 1) = Some b ->
+     validate (v_state v) (b_sh (final_block c b)) (b_data (final_block c b)) = true) /\
+  (forall n, H + 1 < n -> c_initial c < n -> served st n = None).
+Proof. exact loop_served. Qed.
+Print Assumptions C01_loop_served_full.
+
+(* (6) FULL.  A transient fault of the sequencing layer never halts the node.  After every history under the loop,
+   while the loop runs, a round that the sequencing layer answers with an error — of ANY class: the model has one
+   error answer [SErr], the code must treat every error value alike (a request-level deadline or cancellation of
+   the sequencer's client is not the node's own context ending) — or with no response / no batch [SNil]:
+   (a) if the sequencing layer was asked at all, the round is skipped: nil is returned, nothing is written, durable
+       image and process state are unchanged, the loop goes on;
+   (b) whatever the round did (a stored pending block is retried without asking), with a working execution layer
+       the loop is running afterwards. *)
+Theorem C01_loop_survives_sequencer_faults_full : forall (c : cfg) (h : list act),
+  wf_cfg c ->
+  let st := lrun c h in
+  forall v, vol_of st = Some v -> forall sq e, seq_fault sq = true ->
+  let r := step c (img_of st) v sq e in
+  let st' := fst (loop_item c st (AStep sq e)) in
+  (a_req r <> None -> a_out r = OSkipped /\ a_ws r = [] /\ img_of st' = img_of st /\ vol_of st' = Some v) /\
+  (e <> EErr -> alive st' = true).
+Proof. exact loop_survives_sequencer_faults. Qed.
+Print Assumptions C01_loop_survives_sequencer_faults_full.
+
+(* (6') FULL.  Exactly which rounds halt the node: after every history under the loop, a round of the running loop
+   hands an error back ONLY IF the execution layer was called in it and failed ("error applying block"; the block
+   stays stored as the pending block), or the sequencing layer handed out a NON-EMPTY batch older than the last
+   block ("timestamp is not monotonically increasing"; the batch is dropped — the known finding of C11).  The
+   other error returns of publishBlockInternal (loading the last block, foreign proposer, validation of the block
+   just built or of the stored pending block) are unreachable. *)
+Theorem C01_loop_halts_only_on_full : forall (c : cfg) (h : list act),
+  wf_cfg c ->
+  let st := lrun c h in
+  forall v, vol_of st = Some v -> forall sq e,
+  let r := step c (img_of st) v sq e in
+  round_failed (a_out r) = true ->
+  (e = EErr /\ a_out r = OErrExec /\ a_call r <> None) \/
+  (exists txs ts cur lt, sq = SBatch txs ts cur /\ txs <> [] /\ a_out r = OErrTime /\ a_call r = None /\
+     last_time c st = Some lt /\ (ts < lt)%Z).
+Proof. exact loop_halts_only_on. Qed.
+Print Assumptions C01_loop_halts_only_on_full.
+
+(* (7) PARTIAL.  Liveness under the loop, guarded by "the loop is running, or the node is started again":
+   (a) while the loop runs — after ANY history, in particular after any number of rounds answered by sequencer
+       faults, absent or empty batches — a well-formed pair of responses commits the next block in that very round;
+   (b) from EVERY state of a history under the loop, halted or not, a (re)start with a working execution layer
+       succeeds, everything agrees, a start on a recorded state writes nothing, and a well-formed pair of responses
+       commits the next block in the first round.
+   What is missing for the unguarded statement: the pinned loops HALT the node, by design, on the two kinds of
+   round of (6') — after an execution-layer failure or a refused non-empty batch the node produces again only once
+   it has been started again ([ex_loop_halts]: kernel-checked witness; the harness observes the same halts on the
+   real AggregationLoop and counts them).  By (6) no fault of the sequencing layer is among them. *)
+Theorem C01_loop_no_wedge_partial : forall (c : cfg) (h : list act),
+  wf_cfg c ->
+  let st := lrun c h in
+  (forall v, vol_of st = Some v -> forall sq e, wf_resp c st sq e = true ->
+     a_out (step c (img_of st) v sq e) = OCommitted (g_height (img_of st) + 1)) /\
+  (forall r0, let st' := fst (loop_item c st (ABoot (Some r0))) in
+     exists v, vol_of st' = Some v /\ ChainValid c st' /\
+       (g_state (img_of st) <> None -> img_of st' = img_of st) /\
+       forall sq e, wf_resp c st' sq e = true ->
+         a_out (step c (img_of st') v sq e) = OCommitted (g_height (img_of st') + 1)).
+Proof. exact loop_no_wedge. Qed.
+Print Assumptions C01_loop_no_wedge_partial.
+
+(* non-vacuity and the witness of (7): under the loop — the genesis block, a block, three rounds answered by
+   sequencer faults (error, no batch, error: the loop keeps running, nothing is written), a block, an execution
+   failure (the loop HALTS the node; the early-saved block 4 stays pending), a round that finds no process, a
+   restart (writes nothing), the pending block committed whatever the sequencer answers, a refused non-empty batch
+   older than the last block (the loop halts again), a restart and a last block *)
+Definition lp_history : list act :=
+  [ ABoot (Some 1); AStep SNil (EOk 2); AStep (SBatch [5; 6] 1000%Z 1) (EOk 3);
+    AStep SErr (EOk 4); AStep SNil EErr; AStep SErr (EOk 5);
+    AStep (SBatch [7] 2000%Z 2) (EOk 6);
+    AStep (SBatch [8] 3000%Z 3) EErr;
+    AStep (SBatch [9] 4000%Z 4) (EOk 7);
+    ABoot (Some 9);
+    AStep SErr (EOk 8);
+    AStep (SBatch [10] 2500%Z 5) (EOk 9);
+    ABoot None;
+    AStep (SBatch [11] 5000%Z 6) (EOk 10) ].
+Example ex_loop_halts :
+  map o_res (loutputs f1_cfg lp_history) =
+    [OBootOk; OCommitted 1; OCommitted 2; OSkipped; OSkipped; OSkipped; OCommitted 3; OErrExec; ONotRunning;
+     OBootOk; OCommitted 4; OErrTime; OBootOk; OCommitted 5] /\
+  map (fun k => alive (lrun f1_cfg (firstn k lp_history))) [1; 4; 5; 6; 7; 8; 9; 10; 11; 12; 13; 14]%nat =
+    [true; true; true; true; true; false; false; true; true; false; true; true] /\
+  map (fun o => List.length (o_ws o)) (loutputs f1_cfg lp_history) = [1; 3; 5; 0; 0; 0; 5; 2; 0; 0; 3; 1; 0; 5]%nat /\
+  option_map (fun b => d_txs (b_data b)) (served (lrun f1_cfg lp_history) 4) = Some [8] /\
+  g_height (img_of (lrun f1_cfg lp_history)) = 5.
+Proof. vm_compute. repeat split. Qed.
+
+Example ex_loop_hypotheses :
+  wf_cfg f1_cfg /\ (exists v, vol_of (lrun f1_cfg (firstn 3 lp_history)) = Some v) /\
+  seq_fault SErr = true /\ seq_fault SNil = true /\
+  a_req (step f1_cfg (img_of (lrun f1_cfg (firstn 3 lp_history))) {| v_state := genesis_state f1_cfg 1; v_cursor := 1 |} SErr (EOk 4)) <> None /\
+  wf_resp f1_cfg (lrun f1_cfg lp_history) (SBatch [12] 5000%Z 7) (EOk 11) = true.
+Proof.
+  split; [split; [vm_compute; discriminate|reflexivity]|]. split; [eexists; vm_compute; reflexivity|].
+  repeat split; try reflexivity. vm_compute. discriminate.
+Qed.
+
+(* (8) FULL, FROM TRANSLATED CODE.  The rule by which the model lets a round end the loop ([loop_ends]: the round
+   failed and the node's context is live) is what Manager.normalAggregationLoop, Manager.lazyAggregationLoop and
+   Manager.produceBlock do: translated from /repo's source on every run (one function per case of their select),
+   evaluated against scripted collaborators (Check/GoLiteAggregation.v, for ALL worlds).  Every producing case
+   makes one call of m.publishBlock and returns an error — ends the loop — exactly then; the other cases never do. *)
+From Verif Require Check.GoLiteAggregation Proofs.ProducerLoopTranslated.
+Theorem C01_translated_loops_end_iff_full : forall w : GoLiteAggregation.aworld,
+  (exists o, GoLiteAggregation.run_case "Manager.normalAggregationLoop$blockTimer" w = Some o /\
+             ProducerLoopTranslated.case_ends o = loop_ends (GoLiteAggregation.a_pub_ok w) (GoLiteAggregation.a_cancel w)) /\
+  (exists o, GoLiteAggregation.run_case "Manager.lazyAggregationLoop$lazyTimer" w = Some o /\
+             ProducerLoopTranslated.case_ends o = loop_ends (GoLiteAggregation.a_pub_ok w) (GoLiteAggregation.a_cancel w)) /\
+  (exists o, GoLiteAggregation.run_case "Manager.lazyAggregationLoop$blockTimer" w = Some o /\
+             ProducerLoopTranslated.case_ends o = GoLiteAggregation.a_txs w && loop_ends (GoLiteAggregation.a_pub_ok w) (GoLiteAggregation.a_cancel w)) /\
+  (exists o, GoLiteAggregation.run_case "Manager.normalAggregationLoop$txNotifyCh" w = Some o /\ ProducerLoopTranslated.case_ends o = false) /\
+  (exists o, GoLiteAggregation.run_case "Manager.lazyAggregationLoop$txNotifyCh" w = Some o /\ ProducerLoopTranslated.case_ends o = false).
+Proof. exact ProducerLoopTranslated.translated_loops_end_iff. Qed.
+Print Assumptions C01_translated_loops_end_iff_full.
